@@ -5,6 +5,9 @@ package main
 import (
 	"encoding/json"
 	"fmt"
+	"net/url"
+	"strings"
+	"sync"
 
 	"github.com/go-openapi/spec"
 )
@@ -404,4 +407,220 @@ func init() {
 		}
 		return res
 	}
+}
+
+// ---------------------------------------------------------------------------------------------
+// C04: cycles on which EVERY reference is spelled as an absolute URL that is not in canonical form (a "." or ".." segment,
+// a doubled slash, a query on a local file): the two halves of cycle detection (what is pushed on the parent chain, what is
+// looked up) must agree on the spelling, or the cycle is never closed
+
+type spellCycleInput struct {
+	Root  string `json:"root"`  // canonical location of the root document
+	Spell string `json:"spell"` // how the root is spelled inside the references
+	Shape string `json:"shape"` // self | mutual | param-chain
+}
+
+func spellCycleDocs(in spellCycleInput) map[string]interface{} {
+	ref := func(ptr string) map[string]interface{} { return map[string]interface{}{"$ref": in.Spell + "#" + ptr} }
+	defs := map[string]interface{}{"node": map[string]interface{}{"type": "object", "properties": map[string]interface{}{"next": ref("/definitions/node")}}}
+	doc := map[string]interface{}{"swagger": "2.0", "info": map[string]interface{}{"title": "t", "version": "1"}, "paths": map[string]interface{}{}, "definitions": defs}
+	switch in.Shape {
+	case "mutual":
+		defs["node"] = map[string]interface{}{"type": "object", "properties": map[string]interface{}{"next": ref("/definitions/other")}}
+		defs["other"] = map[string]interface{}{"type": "array", "items": ref("/definitions/node")}
+	case "param-chain":
+		doc["parameters"] = map[string]interface{}{"p": ref("/parameters/q"), "q": ref("/parameters/p")}
+		doc["paths"] = map[string]interface{}{"/x": map[string]interface{}{"get": map[string]interface{}{"parameters": []interface{}{ref("/parameters/p")},
+			"responses": map[string]interface{}{"200": map[string]interface{}{"description": "d"}}}}}
+	}
+	return map[string]interface{}{in.Root: doc}
+}
+
+func checkSpellCycle(in spellCycleInput) string {
+	g := exFromGeneric(spellCycleDocs(in), in.Root)
+	for _, o := range []exOpts{{}, {Cont: true}, {Abs: true}, {Skip: true}} {
+		res := exWorkerRun(g.call("expand_spec", o))
+		if res.Timeout {
+			return fmt.Sprintf("ExpandSpec (%+v) does not return within the time limit on a cycle whose references are spelled %q", o, in.Spell)
+		}
+		if res.Panic != "" {
+			return fmt.Sprintf("ExpandSpec (%+v) crashes on a cycle whose references are spelled %q: %.200s", o, in.Spell, res.Panic)
+		}
+	}
+	return ""
+}
+
+func oracleC04Spell(r *rng, n int, tier string) *oracleResult {
+	exQuiet()
+	res := &oracleResult{Stats: map[string]int{}}
+	type rs struct{ root, spell string }
+	var cases []rs
+	for _, root := range []string{"file:///r/api/root.json", "http://h.example/api/root.json"} {
+		u, _ := url.Parse(root)
+		pre := u.Scheme + "://" + u.Host
+		for _, sp := range []string{pre + "/r/../" + strings.TrimPrefix(u.Path, "/"), pre + strings.Replace(u.Path, "/api/", "/api/./", 1), pre + strings.Replace(u.Path, "/api/", "/api/x/../", 1),
+			pre + strings.Replace(u.Path, "/api/", "/api//", 1), strings.ToUpper(u.Scheme) + "://" + u.Host + u.Path} {
+			cases = append(cases, rs{root, sp})
+		}
+		if u.Scheme == "file" {
+			cases = append(cases, rs{root, root + "?v=1"}, rs{root, root + "?"}, rs{root, "file:" + u.Path})
+		} else {
+			cases = append(cases, rs{root, pre + ":80" + u.Path}, rs{root, "http://H.Example" + u.Path})
+		}
+	}
+	fails := 0
+	for _, c := range cases {
+		for _, sh := range []string{"self", "mutual", "param-chain"} {
+			if fails >= 2 {
+				res.Stats["not-examined-after-two-failures"]++
+				continue
+			}
+			in := spellCycleInput{Root: c.root, Spell: c.spell, Shape: sh}
+			res.Evaluations++
+			res.Distinct++
+			if msg := checkSpellCycle(in); msg != "" {
+				fails++
+				res.Stats["fail:unclean-absolute-cycle"]++
+				if fails <= 1 {
+					res.Failures = append(res.Failures, failure{Property: "C04", What: msg, Shape: "unclean-absolute-cycle", Input: in})
+				}
+			}
+		}
+	}
+	res.Samples = []interface{}{spellCycleInput{Root: "file:///r/api/root.json", Spell: "file:///r/api/./root.json", Shape: "self"}}
+	return res
+}
+
+func init() {
+	oracles["C04spell"] = oracleC04Spell
+	replays["C04spell"] = func(input json.RawMessage) *oracleResult {
+		var in spellCycleInput
+		res := &oracleResult{Stats: map[string]int{}, Evaluations: 1}
+		if json.Unmarshal(input, &in) != nil {
+			return res
+		}
+		if msg := checkSpellCycle(in); msg != "" {
+			res.Failures = append(res.Failures, failure{Property: "C04", What: msg, Shape: "unclean-absolute-cycle", Input: in})
+		}
+		return res
+	}
+}
+
+// ---------------------------------------------------------------------------------------------
+// C17 (and C10): one TYPED root shared read-only by goroutines that expand their own schemas against it, through references
+// that end at members the typed document holds as *Schema (a parameter's or response's schema, a `not`): whatever the
+// resolver hands out must not share storage with the root
+
+type typedRootInput struct {
+	Goroutines int `json:"goroutines"`
+	Rounds     int `json:"rounds"`
+}
+
+const typedRootDoc = `{"swagger":"2.0","info":{"title":"t","version":"1"},
+ "definitions":{"Leaf":{"type":"object","deprecated":true,"const":"x","properties":{"v":{"type":"string","writeOnly":true,"x-go-name":"V"}}},
+   "D":{"type":"object","not":{"type":"object","properties":{"l":{"$ref":"#/definitions/Leaf"}},"allOf":[{"$ref":"#/definitions/Leaf"}]}}},
+ "parameters":{"P":{"in":"body","name":"b","schema":{"type":"object","properties":{"l":{"$ref":"#/definitions/Leaf"}},"items":{"$ref":"#/definitions/Leaf"}}}},
+ "responses":{"R":{"description":"r","schema":{"type":"array","items":{"$ref":"#/definitions/Leaf"},"additionalProperties":{"$ref":"#/definitions/Leaf"}}}},
+ "paths":{"/p":{"get":{"responses":{"200":{"description":"ok","schema":{"type":"object","properties":{"d":{"$ref":"#/definitions/D"}}}}}}}}}`
+
+var typedRootRefs = []string{"#/parameters/P/schema", "#/responses/R/schema", "#/definitions/D/not", "#/paths/~1p/get/responses/200/schema", "#/definitions/D"}
+
+func checkTypedRoot(in typedRootInput) string {
+	root := new(spec.Swagger)
+	if err := json.Unmarshal([]byte(typedRootDoc), root); err != nil {
+		return ""
+	}
+	before, _ := json.Marshal(root)
+	expand := func(ref string) (string, error) {
+		sch := &spec.Schema{}
+		sch.Ref = spec.MustCreateRef(ref)
+		if err := spec.ExpandSchema(sch, root, nil); err != nil {
+			return "", err
+		}
+		b, err := json.Marshal(sch)
+		return string(b), err
+	}
+	want := map[string]string{}
+	for _, r := range typedRootRefs {
+		w, err := expand(r)
+		if err != nil {
+			return "" // not a matter of sharing
+		}
+		want[r] = w
+	}
+	if mid, _ := json.Marshal(root); string(mid) != string(before) {
+		return "a sequential ExpandSchema against a typed root modifies the root (reference ending at a *Schema member)"
+	}
+	var wg sync.WaitGroup
+	msgs := make(chan string, in.Goroutines)
+	for g := 0; g < in.Goroutines; g++ {
+		wg.Add(1)
+		go func(g int) {
+			defer wg.Done()
+			for k := 0; k < in.Rounds; k++ {
+				if g%3 == 2 { // a reader of the shared root
+					b, err := json.Marshal(root)
+					if err != nil || string(b) != string(before) {
+						msgs <- "the encoding of the shared read-only root differs from the sequential one while other goroutines expand against it"
+						return
+					}
+					continue
+				}
+				r := typedRootRefs[(g+k)%len(typedRootRefs)]
+				got, err := expand(r)
+				if err != nil || got != want[r] {
+					msgs <- fmt.Sprintf("ExpandSchema of %s against the shared typed root differs from its sequential answer", r)
+					return
+				}
+			}
+		}(g)
+	}
+	wg.Wait()
+	close(msgs)
+	for m := range msgs {
+		return m
+	}
+	if after, _ := json.Marshal(root); string(after) != string(before) {
+		return "the shared typed root has been modified by expansions made against it"
+	}
+	return ""
+}
+
+func oracleTypedRoot(prop string, sizes []int) func(r *rng, n int, tier string) *oracleResult {
+	return func(r *rng, n int, tier string) *oracleResult {
+		exQuiet()
+		res := &oracleResult{Stats: map[string]int{}}
+		for _, g := range sizes {
+			in := typedRootInput{Goroutines: g, Rounds: 40}
+			res.Evaluations++
+			res.Distinct++
+			if msg := checkTypedRoot(in); msg != "" {
+				res.Stats["fail:typed-root-shared"]++
+				res.Failures = append(res.Failures, failure{Property: prop, What: msg, Shape: "typed-root-shared", Input: in})
+				break
+			}
+		}
+		res.Samples = []interface{}{typedRootInput{Goroutines: 8, Rounds: 40}}
+		return res
+	}
+}
+
+func init() {
+	oracles["C17typed"] = oracleTypedRoot("C17", []int{2, 8, 32})
+	oracles["C10typed"] = oracleTypedRoot("C10", []int{1})
+	rp := func(prop string) func(json.RawMessage) *oracleResult {
+		return func(input json.RawMessage) *oracleResult {
+			var in typedRootInput
+			res := &oracleResult{Stats: map[string]int{}, Evaluations: 1}
+			if json.Unmarshal(input, &in) != nil {
+				return res
+			}
+			if msg := checkTypedRoot(in); msg != "" {
+				res.Failures = append(res.Failures, failure{Property: prop, What: msg, Shape: "typed-root-shared", Input: in})
+			}
+			return res
+		}
+	}
+	replays["C17typed"] = rp("C17")
+	replays["C10typed"] = rp("C10")
 }
